@@ -49,6 +49,20 @@ def fill_program(r, g_clusters, bpc, style):
     return ops
 
 
+def rootfull_program(rootent, bpc):
+    """fixed root directory filled to exactly its last slot, with cluster 2 owned by a sub-directory;
+    then rewrites of the full root, one entry too many, remove + refill"""
+    ops = [["makedir", "/SUB"], ["writebytes", "/SUB/INNER.TXT", 1, bpc + 3], ["makedir", "/SUB/DEEP"],
+           ["writebytes", "/SUB/DEEP/X.BIN", 2, 10]]
+    n = rootent - 1
+    for i in range(n):
+        ops.append(["create", "/F%03d.TXT" % i])
+    ops += [["writebytes", "/F000.TXT", 3, 2 * bpc + 1], ["listdir", "/SUB"], ["create", "/ONEMORE.TXT"],
+            ["setinfo", "/F001.TXT", {"modified": 1600000000}], ["remove", "/F002.TXT"], ["makedir", "/LASTDIR"],
+            ["writebytes", "/LASTDIR/Y", 4, 5], ["appendbytes", "/F000.TXT", 5, bpc], ["listdir", "/"]]
+    return ops
+
+
 def configs(tier):
     out = [
         {"fmt": "spec", "geom": dict(totsec=200, spc=1, rootent=64, nfats=2), "offset": 1536, "guard": 4096},
@@ -74,7 +88,10 @@ def run(tier):
     styles = ["mixed", "long", "big"]
     n = 0
     for ci, cfg in enumerate(configs(tier)):
-        for style in styles if tier != "quick" else styles[:2 if ci < 3 else 1]:
+        todo = list(styles if tier != "quick" else styles[:2 if ci < 3 else 1])
+        if cfg["fmt"] == "spec" and cfg["geom"].get("rootent"):
+            todo.append("rootfull")
+        for style in todo:
             cfg = dict(cfg, seed=n)
             if cfg["fmt"] == "spec":
                 g = specfat.Geom(**cfg["geom"])
@@ -83,9 +100,12 @@ def run(tier):
                 count, bpc = (cfg["size"] // 512) - 40, 512
                 if cfg["type"] == 16:
                     count, bpc = cfg["size"] // 1024, 1024
-            if count > 500:
+            if count > 500 and style != "rootfull":
                 style = "big"
-            ops = fill_program(r, count if count < 6000 else count // 40, bpc, style)
+            if style == "rootfull":
+                ops = rootfull_program(cfg["geom"]["rootent"], bpc)
+            else:
+                ops = fill_program(r, count if count < 6000 else count // 40, bpc, style)
             import time as _t
             _t0 = _t.time()
             findings, stats = histcheck.check_history(cfg, ops, remount_every=max(1, len(ops) // 12))
